@@ -6,52 +6,52 @@ HERE = os.path.dirname(os.path.abspath(__file__))
 CLAIMED = {
  # id: (level category, level text, design ref, level note, technique)
  "C01": ("exploration",
-         "Seeded deterministic simulation of k-hop transfers between knowing processes (real protobuf bytes, duplication, delay/reorder, fan-out); per-delivery invariant: visible tree shape and Error() at every node equal the origin's; history check: wire bytes are a fixpoint from the 2nd message on. Sampling, not proof.",
+         "Seeded deterministic simulation of k-hop transfers between knowing processes (real protobuf bytes, duplication, delay/reorder, fan-out); per-delivery invariant: visible tree shape and Error() at every node equal the origin's; history check: wire bytes are a fixpoint from the 2nd message on, and the first re-encoding equals the received message except in barrier/secondary-error layers. Faults: origin and relays observe (log/report/inspect) the error before sending it, relays wrap what they received in generated layers and send that on as a new flow, errnos arriving as sent by a peer of another architecture. Sampling, not proof.",
          "5/C01", "trusted: Go runtime, gogo/protobuf, the harness's tree walker; bounds depth<=7, <=24 nodes, <=8 hops",
          "deterministic simulation: seeded cluster/transport simulator with per-delivery invariants and shrinking replay tape"),
  "C04": ("exploration",
-         "Seeded deterministic simulation of routes O -> U_1..U_m -> K where every intermediary has its own drawn subset of known types (registry sets installed by hook H1), plus a direct control route; per-delivery invariants at every unknowing process (text and shape per node, type names/marks, safe details of opaque layers, verbatim re-encoding of unknown wire nodes, whole-message equality when nothing is known); history check: the final knowing process observes exactly what the control observes (tree, Is row, accessors, stacks, %v, %+v). Sampling, not proof.",
+         "Seeded deterministic simulation of routes O -> U_1..U_m -> K where every intermediary has its own drawn subset of known types (registry sets installed by hook H1), plus a direct control route; per-delivery invariants at every unknowing process (text and shape per node, type names/marks, safe details of opaque layers, verbatim re-encoding of unknown wire nodes, whole-message equality when nothing is known); history check: the final knowing process observes exactly what the control observes (tree, Is row, accessors, stacks, %v, %+v); a quarter of the runs replay the route with the unknown families (and half of the time their payloads' type URLs) renamed on the wire, as the statement words it, and demand the same observations. Sampling, not proof.",
          "5/C04", "trusted: hook H1 models 'does not know a type' as absence of its registry entries (DESIGN.md 8.3); known findings listed in known_findings.json are not re-reported",
          "deterministic simulation: per-process type registries, seeded knowledge subsets and routes, per-delivery invariants + control-route history comparison"),
  "C02": ("exploration",
-         "Seeded deterministic simulation in which an error and up to three references travel independent routes through knowing and unknowing processes and back to the origin; invariants per delivery: the Is row of the transferred error against the local reference pool equals the origin row at knowing processes (stdlib sentinels at unknowing ones), pairs that meet at a knowing process answer as at the origin, a transferred reference answers as the original unless the origin match is not explainable by mark equality (reference model of marks), no new match ever appears, IsAny equals the disjunction. Sampling, not proof.",
+         "Seeded deterministic simulation in which an error and up to three references travel independent routes through knowing and unknowing processes and back to the origin; invariants per delivery: the Is row of the transferred error against the local reference pool equals the origin row at knowing processes (stdlib sentinels at unknowing ones), pairs that meet at a knowing process answer as at the origin, a transferred reference answers as the original unless the origin match is not explainable by mark equality (reference model of marks), no new match ever appears, IsAny equals the disjunction; with an errno leaf a quarter of the runs rewrite it as sent by a peer of another architecture and compare the standard library's sentinels. Sampling, not proof.",
          "5/C02", "trusted: reference model of mark equality (message + full type-mark chain, explicit marks from Mark) used only to decide which origin matches a copy can be expected to keep; text changes in transit are reported with the texts so that recorded C01/C04 findings are recognised",
          "deterministic simulation: multi-flow cluster simulation with per-delivery Is-row invariants against a mark-equality reference model"),
  "C11": ("exploration",
-         "Seeded deterministic simulation of k-hop transfers (k<=8) between knowing processes with duplication and reordering; per-delivery invariant: every public accessor (hints, details, issue links, telemetry keys, domain, context tags, flags, HTTP/gRPC codes, OS predicates, one-line source), per-layer safe details (barrier/secondary layers excepted as the property states) and per-layer reportable stack frames equal their values before the first hop. Sampling, not proof.",
+         "Seeded deterministic simulation of k-hop transfers (k<=8) between knowing processes with duplication and reordering; per-delivery invariant: every public accessor (hints, details, issue links, telemetry keys, domain, context tags, flags, HTTP/gRPC codes, OS predicates, one-line source), per-layer safe details (barrier/secondary layers excepted as the property states) and per-layer reportable stack frames equal their values before the first hop; origin and relays may observe the error before sending it, relays may wrap it in generated layers (new flow, reference values taken at the relay), errnos may arrive as sent by another architecture. Sampling, not proof.",
          "5/C11", "trusted: obs accessor wrappers; OS predicates are not compared when a visible layer answers them through its own methods although no decoder exists for its type (not a 'known type')",
          "deterministic simulation: cluster simulation with per-delivery accessor invariants"),
  "C13": ("exploration",
-         "Seeded deterministic simulation of trees forced to contain multi-cause nodes, sent over routes of knowing and unknowing processes; per delivery: branch count/order/shape and branch texts, message tokens of every branch in %+v, Unwrap/UnwrapOnce nil at multi nodes, Is = self-match (reference model: identity, own Is method, mark equality) or some branch, IsAny = disjunction, As assigns the first node in reference depth-first branch order; at the origin Join drops nils and joins texts with newlines. Sampling, not proof.",
+         "Seeded deterministic simulation of trees forced to contain multi-cause nodes, sent over routes of knowing and unknowing processes; per delivery: branch count/order/shape and branch texts, message tokens of every branch in %+v, Unwrap/UnwrapOnce nil at multi nodes, Is = self-match (reference model: identity, own Is method, mark equality) or some branch, IsAny = disjunction, As assigns the first node in reference depth-first branch order; at the origin Join drops nils and joins texts with newlines; every branch's entries are counted in %+v (one object may sit in two branches); one run in five uses hostile strings for the local semantics. Sampling, not proof.",
          "5/C13", "trusted: reference model of self-match and of the depth-first order; at unknowing processes texts are compared only for nodes whose text does not depend on how a multi-cause node renders (that is C04's subject)",
          "deterministic simulation: cluster simulation with per-delivery tree-semantics oracles against a reference model"),
  "C05": ("fault_enumeration",
-         "Exhaustive enumeration, per decoder key read from the live registries, of payload faults x detail faults x message-type values x multi-cause children x carrier positions x leaf/wrapper form (one simulated delivery per case), plus seeded sequences of wire faults (payload/details/message type/hostile strings/family swap) and protobuf-level byte fuzz on valid generated messages; oracle: DecodeError returns non-nil without panicking and the result survives every verb (panics recovered by fmt are detected in the output), redaction, every accessor, report building and re-encoding. The enumerated part is complete for the stated product; the seeded part is sampling.",
+         "Exhaustive enumeration, per decoder key read from the live registries, of payload faults x detail faults x message-type values x multi-cause children x carrier positions x leaf/wrapper form (one simulated delivery per case), plus seeded sequences of wire faults (payload/details/message type/hostile strings/garbled reportable strings/family swap) and protobuf-level byte fuzz on valid generated messages; oracle: DecodeError returns non-nil without panicking and the result survives every verb (panics recovered by fmt are detected in the output), redaction, every accessor, report building and re-encoding. The enumerated part is complete for the stated product; the seeded part is sampling.",
          "5/C05", "trusted: the exemplar table (one valid wire node per family, obtained by encoding real values) defines 'right payload type'; inputs that are not structurally complete (also inside payloads resolving to EncodedError) are discarded as the property's precondition says; gogo's global proto registry cannot be partitioned (DESIGN.md 8.3)",
          "deterministic simulation with fault injection: exhaustive wire-fault enumeration per registered decoder + seeded fault sequences and byte fuzz through the simulated transport"),
  "C03": ("exploration",
-         "Seeded deterministic simulation with tainted inputs: every string entering through a channel the property lists as unsafe carries a unique token (hostile alphabet); the error is observed locally and after every hop over knowing and unknowing processes; invariant: no unsafe token occurs in Redact()ed %v/%+v renderings, GetAllSafeDetails / per-node GetSafeDetails, reportable payloads, type names and marks on the wire at any nesting level (nested payloads unpacked), the Sentry event JSON and extras. Sampling, not proof.",
+         "Seeded deterministic simulation with tainted inputs: every string entering through a channel the property lists as unsafe carries a unique token (hostile alphabet); the error is observed locally and after every hop over knowing and unknowing processes; invariant: no unsafe token occurs in Redact()ed %v/%+v renderings, GetAllSafeDetails / per-node GetSafeDetails, reportable payloads, type names and marks on the wire at any nesting level (nested payloads unpacked), the Sentry event JSON and extras; printf arguments use other verbs and positions than the defaults, values of application types (SafeFormatter with an unsafe part, Stringer) occur as arguments and tag values, strings of several hundred bytes, rarely chains of 130+ layers. Sampling, not proof.",
          "5/C03", "trusted: the channel table of the generator (which constructor slot is an unsafe channel; slots the statement does not list are neutral and not checked); substring search for alphanumeric tokens",
          "deterministic simulation: taint-token tracking through the simulated cluster with per-delivery leak invariants"),
  "C06": ("exploration",
-         "Seeded deterministic simulation observing each generated error in its local, decoded and opaque states (the latter two produced by hops through knowing and unknowing processes); invariants: redactable %v/%s/%+v and Sprint have balanced, non-nested markers balanced on every line (hostile strings); for regular strings StripMarkers(redactable) equals the fmt rendering via Formattable; %q/%x/%X through redact expose no unsafe token, plain or hex, outside markers. Sampling, not proof.",
+         "Seeded deterministic simulation observing each generated error in its local, decoded and opaque states (the latter two produced by hops through knowing and unknowing processes); invariants: redactable %v/%s/%+v and Sprint have balanced, non-nested markers balanced on every line (hostile strings); for regular strings StripMarkers(redactable) equals the fmt rendering via Formattable; %q/%x/%X through redact expose no unsafe token, plain or hex, outside markers; fault: an unrelated formatting call whose method panics half-way (swallowed by fmt/redact) between two renderings of the same error, which must be equal. Sampling, not proof.",
          "5/C06", "trusted: marker scanner; 'refused' is read as 'no unsafe content outside markers' since the library documents refusal as %!verb(type)",
          "deterministic simulation: state-producing cluster simulation with per-delivery rendering invariants"),
  "C12": ("exploration",
-         "Seeded deterministic simulation with tainted inputs (regular alphabet): every string entering through a channel the library declares safe carries a unique token; observed locally and after every hop between knowing processes; invariant: every safe token (not under a Mark reference), every layer's type name and the innermost function of every captured stack occurs in the Sentry event/extras or GetAllSafeDetails. Sampling, not proof.",
+         "Seeded deterministic simulation with tainted inputs (regular alphabet): every string entering through a channel the library declares safe carries a unique token; observed locally and after every hop between knowing processes; invariant: every safe token (not under a Mark reference), every layer's type name, every frame of every captured stack and every well-known sentinel text that the origin's report shows unredacted occurs in the Sentry event/extras or GetAllSafeDetails, also when asked a second time. Sampling, not proof.",
          "5/C12", "trusted: the channel table (constant messages, format strings, Safe() arguments, telemetry keys, domains, issue links, tag keys are 'declared safe'; Op/Net/syscall names and user SafeDetailers are neutral); one known finding (Safe() tag values in transferred multi-cause branches) is listed in known_findings.json",
          "deterministic simulation: taint-token tracking with per-delivery retention invariants"),
  "C07": ("exploration",
          "Seeded deterministic differential simulation: a tree containing barriers / secondary errors / Mark references and its twin (every hidden sub-tree of a barrier, secondary error or error argument replaced by a bare error with the same text) travel the same route over knowing and unknowing processes; per delivery the visible chain, root cause, every accessor, HasType/As for every hidden type, the nodes shown to If and Is/IsAny against every hidden layer and sentinel must agree; direct checks: Handled keeps the text, *WithMessage replaces it, Mark adds no accessor result and matches no inner layer of its reference, the hidden error stays visible in %+v locally and after transfer. Sampling, not proof.",
-         "5/C07", "trusted: the twin construction; at processes not knowing barrierErr texts are compared modulo marker characters and Is is not compared (recorded C04 finding); accessors that are outermost-layer tests or defined through Is are excluded from the Mark check",
+         "5/C07", "also: an empty replacement message must not hide the hidden error from %+v; at processes not knowing the barrier type the safe parts of the hidden error's own layers are visible in %+v; trusted: the twin construction; at processes not knowing barrierErr texts are compared modulo marker characters and Is is not compared (recorded C04 finding); accessors that are outermost-layer tests or defined through Is are excluded from the Mark check",
          "deterministic simulation: differential twin runs through the simulated cluster with per-delivery hiding invariants"),
  "C15": ("exploration",
-         "Seeded deterministic simulation observing generated trees locally and after each hop between knowing processes (stacks re-parsed from text); the report is compared with an oracle recomputed from public accessors over an independent pre-order walk: message prefix, one composition line per layer, one exception per stack-carrying layer outermost first with deep-equal frames and the domain as module (one synthetic exception when none), one 'error types' line per layer, nothing for nil. Sampling, not proof.",
-         "5/C15", "trusted: obs tree walker (same pre-order as documented: node, single cause, then multi-cause branches); line multiset comparison for the 'error types' extra",
+         "Seeded deterministic simulation observing generated trees locally and after each hop between processes of which some may not know all types (stacks re-parsed from text), and re-wrapped by relays with live stacks; the report is compared with an oracle recomputed from public accessors over an independent pre-order walk: message prefix, one composition line per layer, one exception per stack-carrying layer outermost first with deep-equal frames and the domain as module (one synthetic exception when none), one 'error types' line per layer, nothing for nil. Sampling, not proof.",
+         "5/C15", "independent oracles: source prefix from the per-layer reportable stacks, an exception for every live StackTrace() layer from its own frames, module from the outermost domain layer's details, 'error types' lines as at the origin; trusted: obs tree walker (same pre-order as documented: node, single cause, then multi-cause branches); line multiset comparison for the 'error types' extra",
          "deterministic simulation: cluster simulation with a recomputed-report oracle per delivery"),
  "C17": ("exploration",
          "Code versions simulated as registry sets built with hook H1 (never knew the type / original name / two alternative renames / chained renames of length 2 and 3 registered in every permutation, decoders registered afterwards). Exhaustive part: sender x optional intermediary x receiver x form x permutation on two fixed carriers; seeded part: 1..3 hops with the renamed node grafted into generated carrier trees and a second differently-versioned sender. Oracles: wire family name is the original key, GetTypeKey of the newest name is order-independent, decode yields the receiver's current type (opaque at unknowing ones), Is against a locally built equivalent, copies from different versions Is-equal both ways at every receiver, duplicate migration target rejected.",
-         "5/C17", "trusted: hook H1; the version table; Go types of all names are linked into one binary (DESIGN.md 8.3)",
+         "5/C17", "also: renames changing the receiver kind, renamed multi-cause / generic / protobuf-message types, typed nil pointers, the library's own os.PathError rename, a pure package move, same-chain duplicate declarations; trusted: hook H1; the version table; Go types of all names are linked into one binary (DESIGN.md 8.3)",
          "deterministic simulation: multi-version cluster simulation (per-process registry sets), exhaustive configuration sweep + seeded carriers"),
  "C18": ("exploration",
          "Three layers seeded from the same tape. (1) Cooperative deterministic schedule: 16..32 real goroutines run the read-only observers on one shared value (local or decoded), exactly one at a time, switching only at yield points inserted into every statement of the library by a go/ast overlay generated from the working tree; a random-walk or PCT-style scheduler draws every switch from the tape (replayable, shrinkable); oracle: each result equals the solo result computed on an identical twin. (2) Immutability monitor: a reflective deep fingerprint of everything reachable from the shared value and of the registries is compared after every scheduler step. (3) Race detector: free-running goroutines released from one barrier in a -race build; a report becomes a VIOLATION whose replay file regenerates the same tree and op assignment. Sampling, not proof.",
@@ -59,7 +59,7 @@ CLAIMED = {
          "deterministic simulation: cooperative seeded scheduler over compiled-in yield points + immutability monitor, complemented by a race-detector run"),
  "C20": ("exploration",
          "Real gRPC server (UnaryServerInterceptor) and clients (with and without UnaryClientInterceptor) over an in-memory listener whose connection writes are fragmented as a function of (seed, direction, stream offset); each run registers 1..4 generated trees, nil and two bare status errors with the Echo handler and issues 2..12 RPCs from 1..8 concurrent client goroutines; per RPC: nil stays nil, status errors keep code and message, any other error equals the same error transferred directly with EncodeError/DecodeError (visible tree with stacks and safe details, Is row, accessors, %v, %+v, re-encoded bytes) and a plain client sees the attached gRPC code (Unknown otherwise). Sampling, not proof.",
-         "5/C20", "trusted: google.golang.org/grpc and the HTTP/2 stack run for real on the in-memory network; goroutine interleaving inside gRPC is not decided by the simulator (per-RPC results are schedule-independent when the property holds); no transport faults beyond fragmentation since the property says nothing about failed RPCs",
+         "5/C20", "faults: caller context ended between the arrival of the reply and its processing (interceptor below the library's), contexts carrying log tags, status errors with details (known and unknown message types), relayed downstream statuses, a recovery middleware reporting server-side panics; trusted: google.golang.org/grpc and the HTTP/2 stack run for real on the in-memory network; goroutine interleaving inside gRPC is not decided by the simulator (per-RPC results are schedule-independent when the property holds); no transport faults beyond fragmentation since the property says nothing about failed RPCs",
          "deterministic simulation (partial): seeded workload and seeded stream fragmentation under real gRPC stacks, per-RPC differential oracle against the direct transfer"),
 }
 
